@@ -7,7 +7,7 @@ import random
 from fractions import Fraction
 
 from .. import common as cm
-from ..translate import TranslationError
+from ..translate import TranslationError, get_function, strip_doc
 
 PROP = 'C09'
 STYLES = ['lj', 'real', 'metal', 'si', 'cgs', 'electron', 'micro', 'nano']
@@ -147,7 +147,7 @@ def translate():
     lines.append(']')
     lines.append('')
     lines.append('end Atomman.Gen\n')
-    return {'UnitTable': unit_text, 'LammpsStyle': '\n'.join(lines)}
+    return {'UnitTable': unit_text, 'LammpsStyle': '\n'.join(lines), 'UnitconvertSource': translate_source()}
 
 
 def _lstr(s):
@@ -156,7 +156,642 @@ def _lstr(s):
     return '"' + s + '"'
 
 
-GENERATED = ['UnitTable', 'LammpsStyle']
+# ----------------------------------------------------------------------------------------
+# translator, part 2: atomman/unitconvert.py itself (ast) -> Generated/UnitconvertSource.lean
+# ----------------------------------------------------------------------------------------
+_SKIP_FIELDS = ('ctx', 'kind', 'type_comment')
+
+
+def _unify(node, tmpl, b):
+    """structural match of `node` against the template `tmpl`; names `H_x` of the template are holes (bound to the
+    sub-tree found there, equal sub-trees if used twice); the operator `@` of the template matches any binary
+    operator (recorded in order under b['@'])."""
+    if isinstance(tmpl, ast.Name) and tmpl.id.startswith('H_'):
+        if tmpl.id in b:
+            return isinstance(node, ast.AST) and ast.dump(b[tmpl.id]) == ast.dump(node)
+        if not isinstance(node, ast.AST):
+            return False
+        b[tmpl.id] = node
+        return True
+    if isinstance(tmpl, ast.BinOp) and isinstance(tmpl.op, ast.MatMult):
+        if not isinstance(node, ast.BinOp):
+            return False
+        b.setdefault('@', []).append(type(node.op).__name__)
+        return _unify(node.left, tmpl.left, b) and _unify(node.right, tmpl.right, b)
+    if type(node) is not type(tmpl):
+        return False
+    if isinstance(node, ast.AST):
+        return all(_unify(getattr(node, f, None), getattr(tmpl, f, None), b)
+                   for f in node._fields if f not in _SKIP_FIELDS)
+    if isinstance(node, list):
+        return len(node) == len(tmpl) and all(_unify(x, y, b) for x, y in zip(node, tmpl))
+    return node == tmpl
+
+
+def _match(stmts, code, what):
+    """unify a statement list with template source; TranslationError naming `what` otherwise."""
+    import textwrap
+    tmpl = ast.parse(textwrap.dedent(code)).body
+    b = {}
+    if not isinstance(stmts, list):
+        stmts = [stmts]
+    if not _unify(stmts, tmpl, b):
+        got = '\n'.join(ast.unparse(s) for s in stmts)
+        raise TranslationError(f'unitconvert.py: {what} no longer has the translated form; found:\n{got[:600]}')
+    return b
+
+
+def _const(node, typ, what):
+    if isinstance(node, ast.UnaryOp) and isinstance(node.op, ast.USub) and isinstance(node.operand, ast.Constant):
+        v = -node.operand.value
+    elif isinstance(node, ast.Constant):
+        v = node.value
+    else:
+        raise TranslationError(f'unitconvert.py: {what}: constant expected, found {ast.unparse(node)}')
+    if type(v) is not typ:
+        raise TranslationError(f'unitconvert.py: {what}: {typ.__name__} expected, found {v!r}')
+    return v
+
+
+def _lchar(c):
+    esc = {'\n': "'\\n'", '\r': "'\\r'", '\t': "'\\t'", "'": "'\\''", '\\': "'\\\\'"}
+    if c in esc:
+        return esc[c]
+    if 32 <= ord(c) < 127:
+        return f"'{c}'"
+    return f'(Char.ofNat {ord(c)})'
+
+
+def _lchars(s):
+    return '[' + ', '.join(_lchar(c) for c in s) + ']'
+
+
+def _in_set(var, s, what):
+    if not s:
+        raise TranslationError(f'unitconvert.py: {what}: empty character set')
+    return '(' + ' || '.join(f'{var} = {_lchar(c)}' for c in s) + ')'
+
+
+_OP_OF_CHAR = {'*': 'mul', '/': 'div', '^': 'pow'}
+_ACT_OF_AST = {'Mult': 'mul', 'Div': 'div', 'Pow': 'pow'}
+_FIELD_OF_BASE = {'m': 'm', 'kg': 'kg', 's': 's', 'C': 'c'}
+_CHOICE_FIELDS = ['length', 'mass', 'time', 'energy', 'charge']
+
+
+def _tok_op(node, what):
+    ch = _const(node, str, what)
+    if ch not in _OP_OF_CHAR:
+        raise TranslationError(f'unitconvert.py: {what}: operator string {ch!r} is not one of * / ^')
+    return _OP_OF_CHAR[ch]
+
+
+def _act(name, what):
+    if name not in _ACT_OF_AST:
+        raise TranslationError(f'unitconvert.py: {what}: python operator {name} is not one of * / **')
+    return _ACT_OF_AST[name]
+
+
+def _nat(node, what):
+    v = _const(node, int, what)
+    if v < 0:
+        raise TranslationError(f'unitconvert.py: {what}: non-negative integer expected, found {v}')
+    return v
+
+
+def _sig(fn):
+    a = fn.args
+    if a.posonlyargs or a.kwonlyargs:
+        raise TranslationError(f'unitconvert.py: {fn.name}: positional-only / keyword-only parameters')
+    names = [x.arg for x in a.args]
+    defs = [''] * (len(names) - len(a.defaults)) + [ast.unparse(d) for d in a.defaults]
+    out = list(zip(names, defs))
+    if a.vararg:
+        out.append(('*' + a.vararg.arg, ''))
+    if a.kwarg:
+        out.append(('**' + a.kwarg.arg, ''))
+    return out
+
+
+def _reset_formula(node, what):
+    """a formula of the energy block over J, nu.m, nu.kg, nu.s: (lean expression, [denominators], is_sqrt)."""
+    sqrt = False
+    if isinstance(node, ast.BinOp) and isinstance(node.op, ast.Pow) and isinstance(node.right, ast.Constant) \
+            and node.right.value == 0.5 and type(node.right.value) is float:
+        sqrt = True
+        node = node.left
+    dens = []
+
+    def go(n):
+        if isinstance(n, ast.Name) and n.id == 'J':
+            return 'j'
+        if isinstance(n, ast.Attribute) and isinstance(n.value, ast.Name) and n.value.id == 'nu' \
+                and n.attr in ('m', 'kg', 's'):
+            return _FIELD_OF_BASE[n.attr]
+        if isinstance(n, ast.BinOp) and isinstance(n.op, ast.Pow):
+            if isinstance(n.right, ast.Constant) and type(n.right.value) is int and n.right.value == 2:
+                x = go(n.left)
+                return f'({x} * {x})'
+            raise TranslationError(f'unitconvert.py: {what}: power other than **2 in {ast.unparse(n)}')
+        if isinstance(n, ast.BinOp) and isinstance(n.op, ast.Mult):
+            return f'({go(n.left)} * {go(n.right)})'
+        if isinstance(n, ast.BinOp) and isinstance(n.op, ast.Div):
+            a, d = go(n.left), go(n.right)
+            dens.append(d)
+            return f'({a} / {d})'
+        raise TranslationError(f'unitconvert.py: {what}: cannot translate {ast.unparse(n)}')
+    e = go(node)
+    if len(dens) != 1:
+        raise TranslationError(f'unitconvert.py: {what}: exactly one division expected in {ast.unparse(node)}')
+    return e, dens[0], sqrt
+
+
+def translate_source():
+    src = cm.source('atomman/unitconvert.py')
+    fns = {n: get_function(src, n) for n in ('build_unit', 'reset_units', 'set_literal', 'set_in_units', 'get_in_units',
+                                              'value_unit', 'error_unit', 'model', 'parse')}
+    L = ['/- GENERATED by harness/props/c09.py from atomman/unitconvert.py (python ast) — do not edit.',
+         '   Every definition is assembled from what the current source says: character sets, branch order of the',
+         '   tokeniser, the parenthesis scan, which string each reduction loop looks for, which list positions it reads,',
+         '   which slices it keeps and which python operator it applies, the decision chain and the formulas of',
+         '   reset_units, the split loop of set_literal, the operator of set_in_units / get_in_units, the glue of',
+         '   value_unit / model.  lean/Proofs/C09_Source.lean proves each equal to the hand model (gen_…_eq_model). -/',
+         'import Atomman.C09', 'set_option linter.unusedVariables false', 'namespace Atomman.Gen.UC', 'open Atomman.C09', '']
+
+    # ---- signatures ---------------------------------------------------------------------------------------
+    L.append('/-- parameters (with defaults) of the public functions, in source order -/')
+    L.append('def signatures : List (String × List (String × String)) := [')
+    rows = []
+    for n in ('build_unit', 'reset_units', 'set_literal', 'set_in_units', 'get_in_units', 'value_unit', 'error_unit',
+              'model', 'parse'):
+        ps = ', '.join(f'({_lstr(a)}, {_lstr(d)})' for a, d in _sig(fns[n]))
+        rows.append(f'  ({_lstr(n)}, [{ps}])')
+    L.append(',\n'.join(rows) + ']')
+    L.append('')
+
+    # ---- build_unit ---------------------------------------------------------------------------------------
+    b = _match(strip_doc(fns['build_unit'].body), '''
+        global unit
+        unit = {}
+        for key, value in nu.__dict__.items():
+            try:
+                key = key.decode('UTF-8')
+            except:
+                pass
+            if H_cond:
+                unit[key] = value
+        ''', 'build_unit')
+    cond = b['H_cond']
+    if not (isinstance(cond, ast.BoolOp) and isinstance(cond.op, ast.And)):
+        raise TranslationError('unitconvert.py: build_unit: filter is not a conjunction')
+    L.append('/-- `build_unit`: an attribute of numericalunits enters `unit` iff all of these hold (statement pin; the unit')
+    L.append('    table of `Generated/UnitTable.lean` is measured with the same filter) -/')
+    L.append('def buildUnitFilter : List String := [' + ', '.join(_lstr(ast.unparse(v).replace('"', "'"))
+                                                                  for v in cond.values) + ']')
+    L.append('')
+
+    # ---- parse --------------------------------------------------------------------------------------------
+    body = strip_doc(fns['parse'].body)
+    if len(body) != 1 or not isinstance(body[0], ast.If):
+        raise TranslationError('unitconvert.py: parse: body is not one if / elif / else')
+    top = body[0]
+    b = {}
+    if not _unify(top.test, ast.parse('units is None or units == H_scaled', mode='eval').body, b):
+        raise TranslationError(f'unitconvert.py: parse: first test is {ast.unparse(top.test)}')
+    scaled = _const(b['H_scaled'], str, "parse: the word 'scaled'")
+    bb = _match(top.body, 'return H_one', 'parse (None / scaled branch)')
+    one = _const(bb['H_one'], int, 'parse: value returned for None')
+    if len(top.orelse) != 1 or not isinstance(top.orelse[0], ast.If):
+        raise TranslationError('unitconvert.py: parse: elif isinstance(units, str) missing')
+    mid = top.orelse[0]
+    if ast.unparse(mid.test) != 'isinstance(units, str)':
+        raise TranslationError(f'unitconvert.py: parse: second test is {ast.unparse(mid.test)}')
+    _match(mid.orelse, 'return units', 'parse (number branch)')
+    sb = mid.body
+    if len(sb) != 6:
+        raise TranslationError(f'unitconvert.py: parse: string branch has {len(sb)} statements, expected 6')
+    _match(sb[0:2], 'i = 0\nterms = []', 'parse (initialisation)')
+    loop = sb[2]
+    if not (isinstance(loop, ast.While) and ast.unparse(loop.test) == 'i < len(units)' and not loop.orelse
+            and len(loop.body) == 1 and isinstance(loop.body[0], ast.If)):
+        raise TranslationError('unitconvert.py: parse: tokeniser loop is not `while i < len(units): if …`')
+
+    # the if / elif chain of the tokeniser, in source order
+    branches = []
+    node = loop.body[0]
+    while True:
+        branches.append((node.test, node.body))
+        if len(node.orelse) == 1 and isinstance(node.orelse[0], ast.If):
+            node = node.orelse[0]
+        else:
+            final = node.orelse
+            break
+    bb = _match(final, 'raise ValueError(H_msg)', 'parse (tokeniser: final else)')
+    scan_lines = []
+    aux = []
+    seen = set()
+
+    def T(code):
+        return ast.parse(code, mode='eval').body
+    for test, bd in branches:
+        b = {}
+        if _unify(test, T('units[i] == H_c'), b):
+            ch = _const(b['H_c'], str, 'parse: tokeniser test')
+            if len(bd) == 1 and isinstance(bd[0], ast.Raise):
+                _match(bd, 'raise ValueError(H_msg)', 'parse (tokeniser: refusal)')
+                scan_lines.append((f'c = {_lchar(ch)}', 'none'))
+                seen.add('refuse')
+                continue
+            # the parenthesis branch
+            pb = _match(bd, '''
+                j = i + H_j0
+                pcount = H_start
+                while True:
+                    if j == len(units):
+                        raise ValueError(H_msg)
+                    elif units[j] == H_close:
+                        if pcount == H_zero:
+                            break
+                        else:
+                            pcount -= H_dec
+                    elif units[j] == H_open:
+                        pcount += H_inc
+                    j += H_step
+                terms.append(parse(units[i + H_s0:j]))
+                i = j + H_skip
+                ''', 'parse (parenthesis branch)')
+            for h in ('H_j0', 'H_step', 'H_s0', 'H_skip'):
+                if _nat(pb[h], 'parse: parenthesis scan offset') != 1:
+                    raise TranslationError(f'unitconvert.py: parse: parenthesis scan offset {h[2:]} is '
+                                           f'{ast.unparse(pb[h])}, the list model needs 1')
+            popen, pclose = _const(pb['H_open'], str, 'parse: ('), _const(pb['H_close'], str, 'parse: )')
+            if ch != popen or len(popen) != 1 or len(pclose) != 1:
+                raise TranslationError('unitconvert.py: parse: parenthesis characters')
+            aux += ['/-- the scan for the matching closing parenthesis (`pcount`): `(inside, after)` -/',
+                    'def splitParen : List Char → Nat → Option (List Char × List Char)',
+                    '  | [], _ => none',
+                    '  | c :: cs, k =>',
+                    f'    if c = {_lchar(pclose)} then',
+                    f'      (if k = {_nat(pb["H_zero"], "pcount test")} then some ([], cs)',
+                    f'       else (splitParen cs (k - {_nat(pb["H_dec"], "pcount decrement")})).map fun p => (c :: p.1, p.2))',
+                    f'    else if c = {_lchar(popen)} then (splitParen cs (k + {_nat(pb["H_inc"], "pcount increment")})).map '
+                    'fun p => (c :: p.1, p.2)',
+                    '    else (splitParen cs k).map fun p => (c :: p.1, p.2)', '']
+            scan_lines.append((f'c = {_lchar(popen)}', f'''
+      match splitParen cs {_nat(pb["H_start"], "pcount start")} with
+      | none => none
+      | some (inner, rest) =>
+        (scan alg env f inner).bind fun its =>
+        (reduce alg its).bind fun v =>
+        (scan alg env f rest).map (.val v :: ·)'''))
+            seen.add('paren')
+            continue
+        if ast.unparse(test) == 'units[i].isalpha()':
+            nb = _match(bd, '''
+                term = ''
+                while i < len(units) and units[i] not in H_stop:
+                    term += units[i]
+                    i += 1
+                terms.append(unit[term])
+                ''', 'parse (name branch)')
+            stop = _const(nb['H_stop'], str, 'parse: stop set of names')
+            aux += ['/-- the characters that end a unit name -/',
+                    f'def isStopName (c : Char) : Bool := {_in_set("c", stop, "stop set")}', '']
+            scan_lines.append(('isAlphaStart c', '''
+      (env (c :: cs.takeWhile (fun x => !isStopName x))).bind fun v =>
+      (scan alg env f (cs.dropWhile (fun x => !isStopName x))).map (.val v :: ·)'''))
+            seen.add('name')
+            continue
+        if isinstance(test, ast.BoolOp) and isinstance(test.op, ast.Or):
+            parts = []
+            for v in test.values:
+                b2 = {}
+                if ast.unparse(v) == 'units[i].isdigit()':
+                    parts.append('isDigit c')
+                elif _unify(v, T('units[i] == H_c'), b2):
+                    parts.append(f'c = {_lchar(_const(b2["H_c"], str, "parse: start of a number"))}')
+                else:
+                    raise TranslationError(f'unitconvert.py: parse: number test {ast.unparse(v)}')
+            nb = _match(bd, '''
+                term = ''
+                while i < len(units) and units[i] not in H_stop:
+                    term += units[i]
+                    i += 1
+                terms.append(float(term))
+                ''', 'parse (number branch)')
+            stop = _const(nb['H_stop'], str, 'parse: stop set of numbers')
+            aux += ['/-- the characters that end a number -/',
+                    f'def isStopNum (c : Char) : Bool := {_in_set("c", stop, "stop set")}',
+                    '/-- the characters that start a number -/',
+                    f'def isNumStart (c : Char) : Bool := {" || ".join(parts)}', '']
+            scan_lines.append(('isNumStart c', '''
+      (numLit (c :: cs.takeWhile (fun x => !isStopNum x))).bind fun me =>
+      (alg.num me.1 me.2).bind fun v =>
+      (scan alg env f (cs.dropWhile (fun x => !isStopNum x))).map (.val v :: ·)'''))
+            seen.add('num')
+            continue
+        if _unify(test, T('units[i] in H_set'), b):
+            st = _const(b['H_set'], str, 'parse: character set')
+            if ast.unparse(ast.Module(body=bd, type_ignores=[])) == 'terms.append(units[i])\ni += 1':
+                for ch in st:
+                    if ch not in _OP_OF_CHAR:
+                        raise TranslationError(f'unitconvert.py: parse: operator character {ch!r}')
+                    scan_lines.append((f'c = {_lchar(ch)}', f'(scan alg env f cs).map (.op .{_OP_OF_CHAR[ch]} :: ·)'))
+                seen.add('op')
+                continue
+            if ast.unparse(ast.Module(body=bd, type_ignores=[])) == 'i += 1':
+                aux += ['/-- blanks between tokens -/', f'def isWs (c : Char) : Bool := {_in_set("c", st, "blanks")}', '']
+                scan_lines.append(('isWs c', 'scan alg env f cs'))
+                seen.add('ws')
+                continue
+        raise TranslationError(f'unitconvert.py: parse: tokeniser branch `{ast.unparse(test)}` not understood')
+    if seen != {'paren', 'name', 'num', 'op', 'ws', 'refuse'}:
+        raise TranslationError(f'unitconvert.py: parse: tokeniser branches found: {sorted(seen)}')
+
+    # the two reduction loops
+    pw = _match(sb[3], '''
+        while H_tok in terms:
+            c = terms.index(H_tok)
+            value = [terms[c - H_b] @ terms[c + H_e]]
+            terms = terms[:c - H_h] + value + terms[c + H_t:]
+        ''', 'parse (power loop)')
+    pow_args = (f'.{_tok_op(pw["H_tok"], "power loop")} .{_act(pw["@"][0], "power loop")} '
+                f'{_nat(pw["H_b"], "power loop")} {_nat(pw["H_e"], "power loop")} {_nat(pw["H_h"], "power loop")} '
+                f'{_nat(pw["H_t"], "power loop")}')
+    # the chain of `terms[1] == …` branches
+    md = sb[4]
+    if not (isinstance(md, ast.While) and not md.orelse and len(md.body) == 1 and isinstance(md.body[0], ast.If)):
+        raise TranslationError('unitconvert.py: parse: multiplication loop')
+    hb = {}
+    if not _unify(md.test, T('len(terms) > H_one'), hb) or _nat(hb['H_one'], 'multiplication loop') != 1:
+        raise TranslationError(f'unitconvert.py: parse: multiplication loop runs while {ast.unparse(md.test)}')
+    mbr = []
+    pos = set()
+    node = md.body[0]
+    while True:
+        b1 = {}
+        if not _unify(node.test, T('terms[H_iop] == H_tok'), b1):
+            raise TranslationError(f'unitconvert.py: parse: multiplication loop test {ast.unparse(node.test)}')
+        b2 = _match(node.body, '''
+            value = [terms[H_a] @ terms[H_b]]
+            terms = value + terms[H_d:]
+            ''', 'parse (multiplication loop branch)')
+        mbr.append((_tok_op(b1['H_tok'], 'multiplication loop'), _act(b2['@'][0], 'multiplication loop')))
+        pos.add((_nat(b1['H_iop'], 'mul loop'), _nat(b2['H_a'], 'mul loop'), _nat(b2['H_b'], 'mul loop'),
+                 _nat(b2['H_d'], 'mul loop')))
+        if len(node.orelse) == 1 and isinstance(node.orelse[0], ast.If):
+            node = node.orelse[0]
+        else:
+            _match(node.orelse, 'raise ValueError(H_msg)', 'parse (multiplication loop: else)')
+            break
+    if len(pos) != 1:
+        raise TranslationError('unitconvert.py: parse: the branches of the multiplication loop read different positions')
+    iop, ia, ib, nd = pos.pop()
+    rb = _match(sb[5], 'return terms[H_r]', 'parse (return)')
+    if _nat(rb['H_r'], 'parse: returned position') != 0:
+        raise TranslationError('unitconvert.py: parse: does not return terms[0]')
+    md_args = '[' + ', '.join(f'(.{t}, .{a})' for t, a in mbr) + f'] {iop} {ia} {ib} {nd}'
+
+    L += ['/-! ### `parse` -/', '',
+          f'/-- `units == {scaled!r}` -/', f'def scaledWord : List Char := {_lchars(scaled)}',
+          '/-- the number returned for `None` / the scaled word -/', f'def noneValue : Int := {one}', '']
+    L += aux
+    L += ['/-- `while \'^\' in terms: …` with the string, operator, positions and slices of the source -/',
+          'def powLoop {V : Type} (alg : Alg V) : Nat → List (Item V) → Option (List (Item V)) :=',
+          f'  pyPowLoop alg {pow_args}', '',
+          '/-- `while len(terms) > 1: …; return terms[0]` with the branches, positions and slice of the source -/',
+          'def mulDivLoop {V : Type} (alg : Alg V) : Nat → List (Item V) → Option V :=',
+          f'  pyMulDivLoop alg {md_args}', '',
+          '/-- the two loops one after the other -/',
+          'def reduce {V : Type} (alg : Alg V) (its : List (Item V)) : Option V :=',
+          '  (powLoop alg (its.length + 1) its).bind fun l => mulDivLoop alg (l.length + 1) l', '']
+    L += ['/-- the tokeniser: the branches of `while i < len(units)` in source order -/',
+          'def scan {V : Type} (alg : Alg V) (env : List Char → Option V) :',
+          '    Nat → List Char → Option (List (Item V))',
+          '  | _, [] => some []', '  | 0, _ :: _ => none', '  | f + 1, c :: cs =>']
+    for k, (cond, act) in enumerate(scan_lines):
+        kw = 'if' if k == 0 else 'else if'
+        if act.startswith('\n'):
+            L.append(f'    {kw} {cond} then{act}')
+        else:
+            L.append(f'    {kw} {cond} then {act}')
+    L += ['    else none', '',
+          'def parse {V : Type} (alg : Alg V) (env : List Char → Option V) (cs : List Char) : Option V :=',
+          '  (scan alg env cs.length cs).bind (reduce alg)', '',
+          '/-- `parse(units)` with the `None` / scaled-word test in front -/',
+          'def parseUnits {V : Type} (alg : Alg V) (env : List Char → Option V) (u : Option (List Char)) : Option V :=',
+          '  match u with', '  | none => alg.num noneValue 0',
+          '  | some s => if s = scaledWord then alg.num noneValue 0 else parse alg env s', '']
+
+    # ---- set_in_units / get_in_units --------------------------------------------------------------------------
+    L.append('/-! ### `set_in_units` / `get_in_units` / `set_literal` -/')
+    L.append('')
+    for fn, lean in (('set_in_units', 'setInUnits'), ('get_in_units', 'getInUnits')):
+        b = _match(strip_doc(fns[fn].body), 'units = parse(units)\nreturn np.asarray(value) @ units', fn)
+        act = _act(b['@'][0], fn)
+        if act == 'pow':
+            raise TranslationError(f'unitconvert.py: {fn} raises the value to a power')
+        cls, sym = ('Mul', '*') if act == 'mul' else ('Div', '/')
+        L += [f'/-- `{fn}`: `np.asarray(value) {sym} parse(units)` -/',
+              f'def {lean} {{K : Type}} [{cls} K] (vals : List K) (f : K) : List K := vals.map (· {sym} f)', '']
+
+    # ---- set_literal ----------------------------------------------------------------------------------------------
+    b = _match(strip_doc(fns['set_literal'].body), '''
+        j = len(term)
+        while True:
+            value = term[:j].strip()
+            unit = term[j:].strip()
+            if len(unit) == 0:
+                unit = None
+            try:
+                return set_in_units(ast.literal_eval(value), unit)
+            except:
+                try:
+                    j = term[:j].rindex(H_ch)
+                except:
+                    raise ValueError(H_msg)
+        ''', 'set_literal')
+    sp = _const(b['H_ch'], str, 'set_literal: split character')
+    if len(sp) != 1:
+        raise TranslationError('unitconvert.py: set_literal splits at a string of several characters')
+    L += ['/-- positions tried by `set_literal`: `len(term)`, then repeatedly `term[:j].rindex(…)` -/',
+          'def splitPoints (term : List Char) : List Nat :=',
+          f'  let spaces := (List.range term.length).filter (fun i => term[i]? = some {_lchar(sp)})',
+          '  term.length :: spaces.reverse', '',
+          '/-- `set_literal`: value = `term[:j].strip()`, unit = `term[j:].strip()` (empty: `None`), the first split',
+          '    for which `set_in_units(ast.literal_eval(value), unit)` does not raise -/',
+          'def setLiteralV {K : Type} [Mul K] [Div K] [OfNat K 1] [IntCast K] [NatCast K]',
+          '    (alg : Alg K) (env : List Char → Option K) (term : List Char) : Option (List Nat × List K) :=',
+          '  (splitPoints term).findSome? fun j =>',
+          '    let value := strip (term.take j)', '    let unit := strip (term.drop j)',
+          '    match readLit value with', '    | none => none', '    | some lit =>',
+          '      match lit.shape? with', '      | none => none', '      | some sh =>',
+          '        match parseUnits alg env (if unit.isEmpty then none else some unit) with',
+          '        | none => none',
+          '        | some f => some (sh, setInUnits (lit.flat.map fun me => litVal me.1 me.2) f)', '']
+
+    # ---- value_unit / error_unit / model ---------------------------------------------------------------------------
+    for fn, key in (('value_unit', 'value'), ('error_unit', 'error')):
+        _match(strip_doc(fns[fn].body), f'''
+            unit = term.get('unit', None)
+            if unit is None:
+                {key} = np.asarray(term['{key}'])
+            else:
+                {key} = set_in_units(term['{key}'], unit)
+            if 'shape' in term:
+                shape = tuple(term['shape'])
+                {key} = {key}.reshape(shape)
+            return {key}
+            ''', fn)
+    L += ['/-! ### `value_unit` (`error_unit` is the same text on the key `error`) and `model` -/', '',
+          '/-- `value_unit`: no unit → the value as it is, else `set_in_units`; a shape → `reshape` -/',
+          'def valueUnit {K : Type} [Mul K] (alg : Alg K) (env : List Char → Option K) (t : UCModel K) : Option (Arr K) :=',
+          '  let conv : Option (List K) :=', '    match t.unit with', '    | none => some t.vals',
+          '    | some u => (parseUnits alg env (some u)).map fun f => setInUnits t.vals f',
+          '  conv.bind fun vs =>', '    match t.shape with',
+          '    | some sh => if vs.length = sh.foldr (· * ·) 1 then some ⟨sh, vs⟩ else none',
+          '    | none => if t.scalar then (if vs.length = 1 then some ⟨[], vs⟩ else none) else some ⟨[vs.length], vs⟩', '']
+    mb = _match(strip_doc(fns['model'].body), '''
+        datamodel = DM()
+        if units is not None:
+            value = get_in_units(value, units)
+        else:
+            value = np.asarray(value)
+        if error is not None:
+            error = get_in_units(error, units)
+        if value.ndim == H_n0:
+            datamodel['value'] = value.item()
+            if error is not None:
+                datamodel['error'] = error.item()
+        elif value.ndim == H_n1:
+            datamodel['value'] = value.tolist()
+            if error is not None:
+                datamodel['error'] = error.tolist()
+        else:
+            shape = value.shape
+            datamodel['value'] = value.flatten().tolist()
+            if error is not None:
+                datamodel['error'] = error.flatten().tolist()
+            datamodel['shape'] = list(shape)
+        if units is not None:
+            datamodel['unit'] = units
+        return datamodel
+        ''', 'model')
+    n0, n1 = _nat(mb['H_n0'], 'model: ndim of a single value'), _nat(mb['H_n1'], 'model: ndim of a list')
+    L += ['/-- the number of dimensions written as a single number / as a plain list -/',
+          f'def ndimScalar : Nat := {n0}', f'def ndimList : Nat := {n1}', '',
+          '/-- `model(value, units)`: `get_in_units` when units are given; the three `ndim` cases; the unit key -/',
+          'def ucModel {K : Type} [Div K] [OfNat K 0] [DecidableEq K] (alg : Alg K) (env : List Char → Option K)',
+          '    (a : Arr K) (units : Option (List Char)) : Option (UCModel K) :=',
+          '  let conv : Option (List K) :=', '    match units with', '    | none => some a.vals',
+          '    | some u => (parseUnits alg env (some u)).bind fun f => if f = 0 then none else some (getInUnits a.vals f)',
+          '  conv.map fun vs =>',
+          '    if a.shape.length = ndimScalar then ⟨true, vs, none, units⟩',
+          '    else if a.shape.length = ndimList then ⟨false, vs, none, units⟩',
+          '    else ⟨false, vs, some a.shape, units⟩', '']
+
+    # ---- reset_units ------------------------------------------------------------------------------------------------
+    rbody = strip_doc(fns['reset_units'].body)
+    if len(rbody) != 1 or not isinstance(rbody[0], ast.If):
+        raise TranslationError('unitconvert.py: reset_units: body is not one if / elif / else')
+    top = rbody[0]
+    b = {}
+    if not _unify(top.test, T('len(kwargs) == H_z'), b) or _nat(b['H_z'], 'reset_units') != 0:
+        raise TranslationError(f'unitconvert.py: reset_units: first test is {ast.unparse(top.test)}')
+    _match(top.body, 'nu.reset_units(seed)\nbuild_unit()', 'reset_units (seed branch)')
+    if len(top.orelse) != 1 or not isinstance(top.orelse[0], ast.If) or ast.unparse(top.orelse[0].test) != 'seed is None':
+        raise TranslationError('unitconvert.py: reset_units: `elif seed is None` missing')
+    named = top.orelse[0]
+    _match(named.orelse, 'raise ValueError(H_msg)', 'reset_units (seed with keywords)')
+    nb = named.body
+    if len(nb) != 10:
+        raise TranslationError(f'unitconvert.py: reset_units: named branch has {len(nb)} statements, expected 10')
+    b = _match(nb[0], 'if len(kwargs) > H_max:\n    raise ValueError(H_msg)', 'reset_units (count check)')
+    kmax = _nat(b['H_max'], 'reset_units: maximum number of keywords')
+    _match(nb[1:3], "nu.reset_units('SI')\nbuild_unit()", 'reset_units (SI baseline)')
+    _match(nb[8:10], 'nu.set_derived_units_and_constants()\nbuild_unit()', 'reset_units (rebuild)')
+    base = {}        # field -> (base name, keyword)
+    for st in nb[3:7]:
+        b = _match(st, 'if H_kw in kwargs:\n    H_t = unit[H_b] / unit[kwargs[H_kw]]', 'reset_units (base unit)')
+        t = b['H_t']
+        if not (isinstance(t, ast.Attribute) and isinstance(t.value, ast.Name) and t.value.id == 'nu'
+                and t.attr in _FIELD_OF_BASE):
+            raise TranslationError(f'unitconvert.py: reset_units: assignment to {ast.unparse(t)}')
+        kw = _const(b['H_kw'], str, 'reset_units: keyword')
+        if kw not in _CHOICE_FIELDS or _FIELD_OF_BASE[t.attr] in base:
+            raise TranslationError(f'unitconvert.py: reset_units: keyword {kw!r} / base unit {t.attr} twice')
+        base[_FIELD_OF_BASE[t.attr]] = (_const(b['H_b'], str, 'reset_units: base unit name'), kw)
+    if set(base) != {'m', 'kg', 's', 'c'}:
+        raise TranslationError('unitconvert.py: reset_units: the four base-unit assignments')
+    eb = _match(nb[7], '''
+        if H_kw in kwargs:
+            J = unit[H_b] / unit[kwargs[H_kw]]
+            if H_k1 not in kwargs:
+                H_t1 = H_f1
+            elif H_k2 not in kwargs:
+                H_t2 = H_f2
+            elif H_k3 not in kwargs:
+                H_t3 = H_f3
+        ''', 'reset_units (energy block)')
+    ekw = _const(eb['H_kw'], str, 'reset_units: energy keyword')
+    ebase = _const(eb['H_b'], str, 'reset_units: energy unit name')
+    if ekw not in _CHOICE_FIELDS or ekw in [v[1] for v in base.values()]:
+        raise TranslationError('unitconvert.py: reset_units: energy keyword')
+    ebr = []
+    for k in '123':
+        t = eb['H_t' + k]
+        if not (isinstance(t, ast.Attribute) and isinstance(t.value, ast.Name) and t.value.id == 'nu'
+                and t.attr in ('m', 'kg', 's')):
+            raise TranslationError(f'unitconvert.py: reset_units: energy block assigns {ast.unparse(t)}')
+        kw = _const(eb['H_k' + k], str, 'reset_units: energy block keyword')
+        if kw not in _CHOICE_FIELDS:
+            raise TranslationError(f'unitconvert.py: reset_units: energy block keyword {kw!r}')
+        ebr.append((kw, _FIELD_OF_BASE[t.attr]) + _reset_formula(eb['H_f' + k], 'reset_units (energy block)'))
+
+    def bs(f):
+        return f'baseScale si {_lchars(base[f][0])} ch.{base[f][1]}'
+    klass = '[Mul K] [Div K] [OfNat K 0] [OfNat K 1] [DecidableEq K]'
+    L += ['/-! ### `reset_units` -/', '',
+          '/-- the keyword each field of a choice is read from (`\'length\' in kwargs` … ) -/',
+          'def choiceOf (kw : List (String × List Char)) : Choice :=',
+          '  ⟨' + ', '.join(f'kwGet kw {_lstr(k)}' for k in (base['m'][1], base['kg'][1], base['s'][1], ekw, base['c'][1]))
+          + '⟩', '',
+          '/-- `if len(kwargs) == 0 / elif seed is None (if len(kwargs) > max: raise) / else: raise` -/',
+          'def resetPath (a : ResetArgs) : ResetPath :=',
+          '  if a.kw.length = 0 then .seeded',
+          f'  else if !a.seedGiven then (if {kmax} < a.kw.length then .refuseCount else .named (choiceOf a.kw))',
+          '  else .refuseSeed', '']
+    field_order = ['m', 'kg', 's', 'c']
+
+    def struct(repl=None):
+        fs = {f: f for f in field_order}
+        if repl:
+            fs[repl[0]] = repl[1]
+        return '⟨' + ', '.join(fs[f] for f in field_order) + ', 1⟩'
+    L += ['/-- the quantity under the square root, when the branch taken has one -/',
+          f'def radicand {{K : Type}} {klass} (si : List Char → Option K)', '    (ch : Choice) : Option K :=',
+          f'  match ch.{ekw} with', '  | none => none', '  | some en =>',
+          f'    match {bs("m")}, {bs("kg")}, {bs("s")},', f'          baseScale si {_lchars(ebase)} (some en) with',
+          '    | some m, some kg, some s, some j =>']
+    for k, (kw, fld, e, den, sq) in enumerate(ebr):
+        L.append(f'      {"if" if k == 0 else "else if"} ch.{kw}.isNone then {("some " + e) if sq else "none"}')
+    L += ['      else none', '    | _, _, _, _ => none', '',
+          '/-- base scalings after `reset_units(**kwargs)`; `r` stands for `(radicand) ** 0.5` -/',
+          f'def resetScales {{K : Type}} {klass} (si : List Char → Option K)',
+          '    (ch : Choice) (r : K) : Option (Scales K) :=',
+          f'  if {kmax} < ch.count then none else',
+          f'  match {bs("m")}, {bs("kg")}, {bs("s")},', f'        {bs("c")} with',
+          '  | some m, some kg, some s, some c =>', f'    match ch.{ekw} with', f'    | none => some {struct()}',
+          '    | some en =>', f'      match baseScale si {_lchars(ebase)} (some en) with', '      | none => none',
+          '      | some j =>']
+    for k, (kw, fld, e, den, sq) in enumerate(ebr):
+        val = 'r' if sq else e
+        L.append(f'        {"if" if k == 0 else "else if"} ch.{kw}.isNone then')
+        L.append(f'          if {den} = 0 then none else some {struct((fld, val))}')
+    L += [f'        else some {struct()}', '  | _, _, _, _ => none', '', 'end Atomman.Gen.UC', '']
+    return '\n'.join(L)
+
+
+GENERATED = ['UnitTable', 'LammpsStyle', 'UnitconvertSource']
 THEOREMS = [
     # precedence of the hand-coded tokeniser/reducer (every rendering, every value algebra)
     'C09.parse_precedence', 'C09.parse_render_precedence',
@@ -181,6 +816,19 @@ THEOREMS = [
     'C09.session_conversion_invariant_rpow', 'C09.session_chosen_units_one_rpow',
     # generated tables: numericalunits table facts, LAMMPS style tables
     'C09.unit_table_ok', 'C09.style_table_dims', 'C09.style_table_names', 'C09.style_entry_scaling',
+    # source tie (Generated/UnitconvertSource.lean, regenerated from unitconvert.py with ast on every run): the two while
+    # loops of parse as python writes them compute the single passes of the model; every generated definition = model
+    'C09.pyPowLoop_eq_powGo', 'C09.pyMulDivLoop_eq_mulDivPass',
+    'C09.gen_isStopName_eq_model', 'C09.gen_isStopNum_eq_model', 'C09.gen_isWs_eq_model', 'C09.gen_isNumStart_eq_model',
+    'C09.gen_splitParen_eq_model', 'C09.gen_powLoop_eq_model', 'C09.gen_mulDivLoop_eq_model', 'C09.gen_reduce_eq_model',
+    'C09.gen_scan_eq_model', 'C09.gen_parse_eq_model', 'C09.gen_parseUnits_eq_model', 'C09.gen_setInUnits_eq_model',
+    'C09.gen_getInUnits_eq_model', 'C09.gen_splitPoints_eq_model', 'C09.gen_setLiteralV_eq_model',
+    'C09.gen_valueUnit_eq_model', 'C09.gen_ucModel_eq_model', 'C09.gen_choiceOf_eq_model', 'C09.gen_resetPath_eq_model',
+    'C09.gen_radicand_eq_model', 'C09.gen_resetScales_eq_model', 'C09.gen_signatures_pinned',
+    # end to end over the generated definitions; the entry point reset_units(seed, **kwargs); uc.model / uc.value_unit
+    'C09.gen_parse_precedence', 'C09.gen_set_get_inverse', 'C09.reset_path_refuses_iff', 'C09.reset_path_which_refusal',
+    'C09.choiceOf_count_le', 'C09.reset_path_named', 'C09.reset_call_refused_keeps_state',
+    'C09.reset_call_chosen_units_one', 'C09.get_set_inverse', 'C09.value_unit_model_inverse', 'C09.uc_model_keys',
 ]
 PARTIAL = {}
 RULE = ('expression trees over {numeric literal, unit name, *, /, ^} generated to depth 6 (exponents: integer-valued '
@@ -1432,6 +2080,233 @@ def _corr_reset(ctx, rng, uc):
         ctx.disagree('reset_units:seed+kw', f'reset_units(seed, length=...) raises {type(e).__name__}', {'op': 'reset-seedkw'})
 
 
+FOREIGN_KW = ['temperature', 'lenght', 'Length', 'current', 'units', 'MASS', 'amount', 'angle']
+SEED_FORMS = ['absent', 'absent', 'none-kw', 'int', 'int-kw', 'zero', 'SI', 'SI-kw']
+
+
+def gen_reset_call(rng, t):
+    """-> (args, kwargs in call order): every way through reset_units(seed=None, **kwargs)."""
+    sf = rng.choice(SEED_FORMS)
+    n = rng.choice([0, 1, 1, 2, 3, 4, 4, 5, 5, 6])
+    keys = []
+    pool = list(KINDS) + FOREIGN_KW
+    rng.shuffle(pool)
+    nforeign = rng.choice([0, 0, 0, 1, 1, 2])
+    own = [k for k in pool if k in KINDS]
+    foreign = [k for k in pool if k not in KINDS]
+    keys = (foreign[:nforeign] + own)[:n] if n <= 5 + nforeign else pool[:n]
+    rng.shuffle(keys)
+    kw = {}
+    for k in keys:
+        u = rng.random()
+        if k in KINDS and u < 0.8:
+            kw[k] = rng.choice(t.by_kind[k])
+        elif u < 0.9:
+            kw[k] = rng.choice(t.names)
+        else:
+            kw[k] = rng.choice(['nounit', 'Angstrom', 'EV', 'kg*m'])
+    args = ()
+    if sf == 'none-kw':
+        kw = {**kw, 'seed': None} if rng.random() < 0.5 else {'seed': None, **kw}
+    elif sf == 'int':
+        args = (rng.randrange(1, 1000),)
+    elif sf == 'zero':
+        args = (0,)
+    elif sf == 'int-kw':
+        kw = {**kw, 'seed': rng.randrange(1, 1000)}
+    elif sf == 'SI':
+        args = ('SI',)
+    elif sf == 'SI-kw':
+        kw = {'seed': 'SI', **kw}
+    return args, kw
+
+
+def _corr_rpath(ctx, rng, uc, n):
+    """the entry point reset_units(seed, **kwargs) against resetPath / resetCall: which calls are refused and with which
+    message, which go the seed way, which by name (and with which choice: foreign keywords are counted but ignored); the
+    model's state after the call against the real table (refused: unchanged; by name: resetScales or, raising half-way, SI)."""
+    import numericalunits as nu
+    t = _tab()
+    base = {'kind': 'named', 'kw': dict(DEFAULT_KW)}
+    for it in range(n):
+        args, kw = gen_reset_call(rng, t)
+        words = {k: v for k, v in kw.items() if k != 'seed'}
+        seed_given = bool(args) or kw.get('seed') is not None
+        call = 'reset_units(' + ', '.join([repr(a) for a in args] + [f'{k}={v!r}' for k, v in kw.items()]) + ')'
+        if 'rtHz' in words.values() or any(v == '' for v in words.values()):
+            continue
+        if (not seed_given and 0 < len(words) <= 4 and all(v in t.si for v in words.values())
+                and not in_float_range(predict_scales({k: v for k, v in words.items() if k in KINDS}, t.si), t)):
+            continue
+        _sync(ctx, base)
+        before = dict(uc.unit)
+        try:
+            _timed(uc.reset_units, *args, **kw)
+            impl = 'seeded' if not words else 'named'
+        except ValueError as e:
+            m = str(e)
+            impl = 'refuse-count' if 'four' in m else 'refuse-seed' if 'seed' in m else f'ValueError({m})'
+        except Hang:
+            raise
+        except Exception as e:  # noqa
+            impl = 'named-raises'
+        line = ' '.join(f'{_cpn(k)} {_cpn(v)}' for k, v in words.items())
+        path = ctx.driver.ask(f'rpath {1 if seed_given else 0} {line}'.rstrip())
+        ctx.stats.case('reset_units:path', (args, tuple(kw.items())), sample={'call': call, 'path': path})
+        want = path.split()[0]
+        rep = {'op': 'rpath', 'args': list(args), 'kw': list(kw.items())}
+        if want != impl.split('-raises')[0]:
+            ctx.disagree('reset_units:path', f'{call}: implementation {impl}, model {path}', rep)
+            continue
+        if want == 'named':
+            got = path.split()[1:]
+            exp = [(_cpn(words[k]) if k in words else '-') for k in KINDS]
+            exp = [exp[0], exp[1], exp[2], exp[3], exp[4]]
+            if got != exp:
+                ctx.disagree('reset_units:path', f'{call}: the model reads the choice {got}, the keywords say {exp}', rep)
+                continue
+        # the state after the call
+        if want == 'seeded':
+            ctx.driver.ask('scales ' + ' '.join(cm.fr(getattr(nu, b)) for b in BASE))
+            continue
+        r = Fraction(1)
+        if want == 'named':
+            ch = ' '.join(path.split()[1:])
+            rad = ctx.driver.ask('radicand ' + ch)
+            if rad != 'none' and not rad.startswith('err:') and Fraction(rad) >= 0:
+                r = Fraction(math.sqrt(float(Fraction(rad))))
+        out = ctx.driver.ask(f'rcall {1 if seed_given else 0} {cm.fr(r)} {line}'.rstrip())
+        if want.startswith('refuse'):
+            ch_ = [k for k in before if not (uc.unit.get(k) == before[k])]
+            if ch_ or set(uc.unit) != set(before):
+                ctx.disagree('reset_units:refused-state', f'{call} is refused ({impl}) but changes uc.unit ({len(ch_)} entries, '
+                             f'e.g. {ch_[:3]})', rep)
+                continue
+        ok_model = 'err:' not in out
+        if want == 'named' and ok_model != (impl == 'named'):
+            ctx.disagree('reset_units:path', f'{call}: implementation {impl}, model {out}', rep)
+            continue
+        # a sample of the table under the model's state
+        names = [rng.choice(t.names) for _ in range(6)] + [v for v in words.values() if v in t.si][:4]
+        outs = ctx.driver.ask_many(['unit ' + _cps(nm) for nm in names])
+        for nm, o in zip(names, outs):
+            if o.startswith('err:'):
+                continue
+            mv = Fraction(o)
+            if abs(Fraction(uc.unit[nm]) - mv) > Fraction(2 * _table_bound(t.dims[nm])) * abs(mv):
+                ctx.disagree('reset_units:call-state', f'after {call} (from the atomman default): uc.unit[{nm!r}] = '
+                             f'{uc.unit[nm]!r}, model {float(mv)!r} ({out})', rep)
+                break
+
+
+def _corr_model(ctx, rng, uc, cfg, n):
+    """uc.model(value, units) against ucModel, uc.value_unit(term) against valueUnit (shape, entries, keys)."""
+    np = _np()
+    t = _tab()
+    vals = {k: Fraction(float(v)) for k, v in uc.unit.items()}
+    for it in range(n):
+        if rng.random() < 0.15:
+            s, e = None, 0.0
+        else:
+            tree = gen_tree(rng, rng.choice([0, 1, 2]), t.names)
+            try:
+                v, dm, e = ev(tree, vals, None, EU)
+            except (Outside, EvalErr):
+                continue
+            if v == 0 or not _mag_ok(v):
+                continue
+            s = render(rng, tree, 2, messy=rng.choice([0.0, 0.5]))
+        shape = rng.choice(SHAPES + [(4,), (2, 3), (1, 1, 1), (3, 1)])
+        cnt = int(np.prod(shape)) if shape else 1
+        xs = [cm.dyadic(rng, -64, 64, 6) for _ in range(cnt)]
+        arr = np.array(xs, dtype=float).reshape(shape)
+        form = rng.choice(['array', 'list', 'scalar'])
+        arg = arr if form == 'array' else arr.tolist() if form == 'list' else (float(arr) if shape == () else arr)
+        shape = tuple(np.asarray(arg).shape)        # a nested list forgets the dimensions behind an empty one
+        sh = ','.join(map(str, shape)) if shape else '-'
+        u = _cpn(s) if s is not None else '-'
+        rep = {'op': 'ucmodel', 'cfg': cfg, 'units': s, 'value': xs, 'shape': list(shape)}
+        try:
+            m = _timed(uc.model, arg, s) if rng.random() < 0.5 else _timed(uc.model, value=arg, units=s)
+            val = m['value']
+            impl = ('L' if isinstance(val, list) else 'S', list(m['shape']) if 'shape' in m else None,
+                    m.get('unit', None), [float(x) for x in (val if isinstance(val, list) else [val])], sorted(m.keys()))
+        except Hang:
+            raise
+        except Exception as ex:  # noqa
+            impl = 'err'
+        out = ctx.driver.ask(f'ucmodel {sh} {u} {len(xs)} ' + ' '.join(cm.fr(x) for x in xs))
+        ctx.stats.case('model', (_cfg_str(cfg), s, shape, tuple(xs)), nontrivial=not out.startswith('err:'),
+                       sample={'cfg': _cfg_str(cfg), 'units': s, 'shape': list(shape), 'value': xs})
+        if out == 'err:size':
+            continue
+        if impl == 'err' or out.startswith('err:'):
+            if not (impl == 'err' and out.startswith('err:')):
+                ctx.disagree('model', f'uc.model({form} of shape {shape}, {s!r}) after {_cfg_str(cfg)}: implementation '
+                             f'{impl}, model {out}', rep)
+            continue
+        head, _, body = out.partition(' | ')
+        kind, msh, mu = head.split()
+        mv = cm.unfrs(body) if body.strip() else []
+        msh = None if msh == '-' else [int(x) for x in msh.split(',')]
+        mu = None if mu == '-' else _uncpn(mu)
+        bad = None
+        if (kind, msh, mu) != impl[:3]:
+            bad = f'implementation writes value as {"a list" if impl[0] == "L" else "a number"}, shape {impl[1]}, unit ' \
+                  f'{impl[2]!r}; model: {"a list" if kind == "L" else "a number"}, shape {msh}, unit {mu!r}'
+        elif set(impl[4]) != {'value'} | ({'shape'} if msh is not None else set()) | ({'unit'} if mu is not None else set()):
+            bad = f'keys {impl[4]}'
+        elif len(mv) != len(impl[3]) or any(abs(Fraction(a) - b) > Fraction(_tol(b, e + 1)) for a, b in zip(impl[3], mv)):
+            bad = f'values {impl[3]} != model {[float(x) for x in mv]}'
+        if bad:
+            ctx.disagree('model', f'uc.model({xs} as {form} of shape {shape}, {s!r}) after {_cfg_str(cfg)}: {bad}', rep)
+            continue
+        # value_unit on what model wrote (exactly those numbers), as DataModelDict and as a plain dict; and on edited terms
+        terms = [(m, 'model output'), (dict(m), 'plain dict')]
+        if rng.random() < 0.5:
+            d = dict(m)
+            d['shape'] = rng.choice([[cnt], [1, cnt], [cnt, 1], [cnt + 1], [2, 2], []])
+            terms.append((d, 'edited shape'))
+        if rng.random() < 0.3 and 'unit' in m:
+            d = dict(m)
+            del d['unit']
+            terms.append((d, 'unit removed'))
+        for term, what in terms:
+            tv = term['value']
+            flat = [float(x) for x in (tv if isinstance(tv, list) else [tv])]
+            tsh = term.get('shape', None)
+            if tsh is not None and len(tsh) == 0:
+                continue          # an empty shape list: reshape(()) of a one-element list; not a form `model` writes
+            tu = term.get('unit', None)
+            try:
+                r = np.asarray(_timed(uc.value_unit, term))
+                impl2 = (list(r.shape), [float(x) for x in r.flatten()]) if np.isfinite(r).all() else 'err'
+            except Hang:
+                raise
+            except Exception:  # noqa
+                impl2 = 'err'
+            o2 = ctx.driver.ask(f'valunit {"L" if isinstance(tv, list) else "S"} '
+                                f'{",".join(map(str, tsh)) if tsh is not None else "-"} {_cpn(tu) if tu is not None else "-"} '
+                                f'{len(flat)} ' + ' '.join(cm.fr(x) for x in flat))
+            ctx.stats.case('value_unit', (_cfg_str(cfg), what, s, tuple(flat), tuple(tsh or ())),
+                           nontrivial=not o2.startswith('err:'))
+            rep2 = {'op': 'valunit', 'cfg': cfg, 'term': {k: term[k] for k in term}}
+            if o2 == 'err:size':
+                continue
+            if impl2 == 'err' or o2.startswith('err:'):
+                if not (impl2 == 'err' and o2.startswith('err:')):
+                    ctx.disagree('value_unit', f'uc.value_unit({dict(term)!r}) [{what}] after {_cfg_str(cfg)}: implementation '
+                                 f'{impl2}, model {o2}', rep2)
+                continue
+            h2, _, b2 = o2.partition(' | ')
+            sh2 = [] if h2.strip() == '-' else [int(x) for x in h2.strip().split(',')]
+            mv2 = cm.unfrs(b2) if b2.strip() else []
+            if sh2 != impl2[0] or len(mv2) != len(impl2[1]) or any(
+                    abs(Fraction(a) - b) > Fraction(_tol(b, e + 1)) for a, b in zip(impl2[1], mv2)):
+                ctx.disagree('value_unit', f'uc.value_unit({dict(term)!r}) [{what}] after {_cfg_str(cfg)}: implementation '
+                             f'shape {impl2[0]} values {impl2[1]}, model shape {sh2} values {[float(x) for x in mv2]}', rep2)
+
+
 def _sync(ctx, cfg):
     """real module and model driver in the same working-unit configuration."""
     scales = _apply(cfg)
@@ -2283,6 +3158,7 @@ def correspond(ctx):
             _corr_parse(ctx, rng, uc, cfg, per, per // 2)
             _corr_lean_render(ctx, rng, uc, cfg, per // 4)
             _corr_convert(ctx, rng, uc, cfg, ctx.n(120, 800))
+            _corr_model(ctx, rng, uc, cfg, ctx.n(60, 400))
         _corr_styles(ctx, uc)
         _corr_track(ctx, rng, ctx.n(400, 3000))
         # uc.parse(None) / numbers pass through
@@ -2293,6 +3169,7 @@ def correspond(ctx):
                 ctx.disagree('parse:passthrough', f'uc.parse({u!r}) = {r!r}', {'op': 'passthrough'})
         run_sessions(ctx, rng, uc, 'corr', ctx.n(14, 99), ctx.n(60, 600), ctx.n(6, 12), ctx.n(4, 10))
         _corr_reset(ctx, rng, uc)
+        _corr_rpath(ctx, rng, uc, ctx.n(250, 2500))
     finally:
         _restore()
         _report_hangs(ctx)
